@@ -662,7 +662,15 @@ def run_sync(case, stats):
         viols.append({"key": "sync/coroutine-function-not-returned-unchanged", "msg": f"sync({flav}) is not the function itself"})
     args = (7,) if not flav.startswith("partial") else ()
     try:
-        aw = wrapped(*args, b=3)
+        try:
+            aw = wrapped(*args, b=3)
+        except BaseException as exc:  # noqa: BLE001
+            # "makes any callable awaitable with the same ... exception": the failure belongs to the awaitable;
+            # a caller that creates the awaitable first and awaits it inside its try block never sees it there
+            if flav != "async_raises":
+                viols.append({"key": "sync/exception-raised-by-the-call-not-by-the-awaitable",
+                              "msg": f"sync({flav})(...) itself raised {type(exc).__name__}: no awaitable was returned"})
+            raise
         import inspect
         if not inspect.isawaitable(aw):
             viols.append({"key": "sync/returns-plain-value", "msg": f"sync({flav})(...) returned {type(aw).__name__}"})
